@@ -174,7 +174,8 @@ class GetLeaves(Contract):
         t, t2, a = z3.Ints("t!gl t2!gl a!gl")
         return [
             ("are-leaves", FA([t], z3.Implies(z3.And(0 <= t, t < r.n), z3.And(n.member[r.elems[t]], no_successor(n, g.edge, r.elems[t]))), r.elems[t])),
-            ("all-leaves", z3.ForAll([a], z3.Implies(z3.And(n.member[a], no_successor(n, g.edge, a)), z3.Exists([t], z3.And(0 <= t, t < r.n, r.elems[t] == a))))),
+            # (mentions n.pos[a] so that the order view of the node set is instantiated at a)
+            ("all-leaves", z3.ForAll([a], z3.Implies(z3.And(n.member[a], n.pos[a] >= 0, no_successor(n, g.edge, a)), z3.Exists([t], z3.And(0 <= t, t < r.n, r.elems[t] == a))))),
             ("each-once", z3.ForAll([t, t2], z3.Implies(z3.And(0 <= t, t < t2, t2 < r.n), r.elems[t] != r.elems[t2]))),
         ]
 
@@ -445,7 +446,7 @@ def _dc_inv(c, k):
     e = R.elems[t]
     return [
         ("count", R.n == k),
-        ("edges-so-far", FA([t], z3.Implies(z3.And(0 <= t, t < k), z3.And(cpl(e, 0) == c.seq.eu[t], cpl(e, 1) == c.seq.ev[t])), R.elems[t])),
+        ("edges-so-far", FA([t], z3.Implies(z3.And(0 <= t, t < k), z3.And(cpl(e, 0) == c.seq.eu[t], cpl(e, 1) == c.seq.ev[t])), R.elems[t], c.seq.eu[t])),
     ] + _couplings_prefix(R, k, g.io, "dci")
 
 
@@ -553,7 +554,7 @@ class FindDiscipline(Contract):
     def ensures(self, c):
         L, o = c.old.self.disciplines, c.old.output
         i, j = z3.Ints("i!fd j!fd")
-        return [("first-producer", z3.Exists([i], z3.And(0 <= i, i < L.n, L.elems[i] == c.result.term if hasattr(c.result, "term") else L.elems[i] == c.result, out_names(L.elems[i])[o],
+        return [("first-producer", z3.Exists([i], z3.And(0 <= i, i < L.n, L.elems[i] == c.result, out_names(L.elems[i])[o],
                                                            z3.ForAll([j], z3.Implies(z3.And(0 <= j, j < i), z3.Not(out_names(L.elems[j])[o]))))))]
 
 
